@@ -15,6 +15,7 @@ labels handed over from another engine).
 import copy
 import math
 import random
+from fractions import Fraction
 
 from .. import seams
 from ..iso import run_isolated
@@ -39,7 +40,9 @@ PROBES = [
     "algorithm_simple_multilayer", "algorithm_none", "trailing_empty_layer", "no_upper_bound",
     "fits_single_layer", "label_wider_than_layer", "identical_positions", "distribute_standalone",
     "distribute_on_engine_labels", "stale_stub_at_compute", "stale_layer_at_compute",
-    "stale_pos_at_compute", "getLayers_checked",
+    "stale_pos_at_compute", "getLayers_checked", "abort_as_SimAbort", "abort_as_MemoryError",
+    "abort_as_KeyboardInterrupt", "recompute_after_other_engine_used_same_objects",
+    "fits_budget_exactly",
 ]
 
 RULE = {
@@ -74,13 +77,13 @@ ASSUMPTIONS = {
     "C06": [
         "labels that share a data position share a width (C06's proviso) - guaranteed by the generator",
         "an aborted compute() is a producer of stale state; its own outcome is not judged, the next completed compute is",
-        "two engines never hold the same label objects while both are judged (hand-over is sequential)",
+        "several engines may hold the same label objects; an engine is judged only immediately after its own completed compute()",
         "abort points are line events in files under <repo>/labella only; label/option space is sampled",
         "the reference is the same real code on fresh objects in a pristine forked child",
     ],
     "C04": [
         "trailing empty layers (algorithm `simple` with more estimated layers than labels) are tolerated",
-        "budget comparisons use a 1e-9 relative guard band and are not asserted inside it",
+        "budget comparisons use a 1e-9 relative guard band and are not asserted inside it, except that 'fits' is asserted when the code's own summation and the budget product are exact in floating point",
         "stand-alone distribute() is judged on fresh nodes only; on used nodes it only produces stale state",
         "label/option space is sampled; the simulation's contribution is the history/fault dimension",
     ],
@@ -166,6 +169,20 @@ def gen_opts(rng, labels, full=True):
         o["algorithm"] = rng.choice(["overlap", "overlap", "simple", "none"])
     if rng.random() < 0.15:
         o["lineSpacing"] = rng.choice([0, 2, 5])
+    if rng.random() < 0.08:
+        # boundary configuration: the labels fit the density budget *exactly*
+        lo = o.get("minPos", 0)
+        if lo is not None:
+            dens = rng.choice([1, 0.5, 0.75, 0.25])
+            sp = o.get("nodeSpacing", 3)
+            req = sum(Fraction(w) for _, w in labels) + Fraction(sp) * (len(labels) - 1)
+            W = req / Fraction(dens)
+            fw = float(W)
+            hi = lo + fw
+            if W > 0 and Fraction(fw) == W and Fraction(hi) - Fraction(lo) == W and hi - lo == fw:
+                o["density"] = dens
+                o["maxPos"] = hi
+                o["algorithm"] = rng.choice(["overlap", "simple", "simple"])
     return o
 
 
@@ -190,7 +207,7 @@ def gen_dist_opts(rng, labels):
 def gen_plan(rng, tier):
     nsets = rng.choice([1, 1, 2, 2, 3])
     neng = rng.choice([1, 1, 2, 3])
-    big = rng.random() < 0.02
+    big = rng.random() < (0.02 if tier == "quick" else 0.05)
     sets = [gen_labels(rng, big and i == 0) for i in range(nsets)]
     enabled = {k: rng.random() < 0.5 for k in ("abort", "stack", "stale")}
     if rng.random() < 0.25:
@@ -198,7 +215,7 @@ def gen_plan(rng, tier):
     ops = []
     have_engine = set()
     engine_set = {}
-    nops = rng.randrange(6, 15)
+    nops = rng.randrange(6, 15) if tier == "quick" else rng.randrange(6, 31)
     e0 = 0
     eng_opts = {}
     o0 = gen_opts(rng, sets[0])
@@ -222,18 +239,12 @@ def gen_plan(rng, tier):
             if engine_set.get(e) is None:
                 s = rng.randrange(nsets)
                 ops.append(["set_labels", e, s, rng.choice(["fresh", "same", "handover"]), rng.randrange(1 << 30)])
-                for k in list(engine_set):
-                    if engine_set[k] == s:
-                        engine_set[k] = None
                 engine_set[e] = s
             ops.append(["compute", e])
         elif r < 0.5:
             s = rng.randrange(nsets)
             mode = rng.choice(["fresh", "same", "permute", "permute", "handover"])
             ops.append(["set_labels", e, s, mode, rng.randrange(1 << 30)])
-            for k in list(engine_set):
-                if engine_set[k] == s:
-                    engine_set[k] = None
             engine_set[e] = s
         elif r < 0.6:
             s = engine_set.get(e)
@@ -253,7 +264,8 @@ def gen_plan(rng, tier):
         elif r < 0.7 and enabled["abort"]:
             ops.append(["abort_compute", e, rng.randrange(0, 1000000),
                         rng.choice(["any", "any", "node.py", "distributor.py", "force.py",
-                                    "removeOverlap.py", "vpsc.py", "<lambda>"])])
+                                    "removeOverlap.py", "vpsc.py", "<lambda>"]),
+                        rng.choice(["SimAbort", "SimAbort", "MemoryError", "KeyboardInterrupt"])])
         elif r < 0.76 and enabled["stack"]:
             ops.append(["stack_compute", e, int(math.exp(rng.uniform(math.log(5), math.log(80))))])
         elif r < 0.88 and enabled["stale"]:
@@ -411,7 +423,24 @@ def check_c04(layers, labels, dist_opts, engine_mode, stats):
     band = 1e-9 * max(abs(budget), abs(required), 1.0)
     if max(x.width for x in labels) > lw:
         stats["probe:label_wider_than_layer"] = stats.get("probe:label_wider_than_layer", 0) + 1
-    if required <= budget - band:
+    fits_exactly = False
+    if abs(required - budget) <= band:
+        # inside the guard band nothing is asserted - unless the arithmetic is
+        # exact (every partial sum of the code's own summation and the budget
+        # product are representable), in which case "fits" is unambiguous
+        ex_b = Fraction(dist_opts["density"]) * Fraction(lw)
+        if Fraction(budget) == ex_b:
+            tot_f, tot_q, exact = 0, Fraction(0), True
+            for x in sorted(labels, key=lambda t: t.idealPos):
+                tot_f += x.width + sp
+                tot_q += Fraction(x.width) + Fraction(sp)
+                if Fraction(tot_f) != tot_q:
+                    exact = False
+                    break
+            if exact and Fraction(tot_f - sp) == tot_q - Fraction(sp) and tot_q - Fraction(sp) <= ex_b:
+                fits_exactly = True
+                stats["probe:fits_budget_exactly"] = stats.get("probe:fits_budget_exactly", 0) + 1
+    if required <= budget - band or fits_exactly:
         stats["probe:fits_single_layer"] = stats.get("probe:fits_single_layer", 0) + 1
         if K != 0:
             return ("split_although_fits", {"required": required, "budget": budget, "layers": K + 1})
@@ -497,8 +526,10 @@ def _run(plan):
     c04 = []
     engines = {}   # e -> {"force", "opts", "set", "computed", "dirty"}
     objs = {}      # s -> list of Node
-    holder = {}    # s -> e
-    laid_by = {}   # s -> e that last ran compute() on these objects
+    laid_by = {}   # s -> e that last ran compute() on the current objects of set s
+    # Several engines may hold the same label objects at the same time (that is
+    # sequential sharing by the caller); an engine is only ever judged right
+    # after its *own* compute() has completed.
 
     def bump(k, n=1):
         stats[k] = stats.get(k, 0) + n
@@ -509,7 +540,7 @@ def _run(plan):
     def judge(step, e, history):
         eng = engines[e]
         s = eng["set"]
-        labels = objs[s]
+        labels = eng["labels"]
         f = eng["force"]
         got = f.nodes()
         if len(got) != len(labels) or {id(x) for x in got} != {id(x) for x in labels}:
@@ -546,9 +577,6 @@ def _run(plan):
             e = op[1]
             opts = dict(FORCE_DEFAULTS)
             opts.update(op[2])
-            old = engines.get(e)
-            if old is not None and old["set"] is not None and holder.get(old["set"]) == e:
-                holder.pop(old["set"])
             engines[e] = {"force": Force(dict(op[2])), "opts": opts, "set": None, "computed": 0,
                           "sets_seen": set()}
         elif kind == "config":
@@ -577,9 +605,6 @@ def _run(plan):
                     eng["permuted"] = True
                 else:
                     eng["permuted"] = False
-                prev_holder = holder.get(s)
-                if prev_holder is not None and prev_holder != e:
-                    engines[prev_holder]["set"] = None
                 if mode_eff != "fresh" and laid_by.get(s) is not None and laid_by[s] != e:
                     bump("fault:handover:configured")
                     if any(n.parent is not None or n.layerIndex != 0 for n in lst):
@@ -587,12 +612,10 @@ def _run(plan):
                     eng["handed_over"] = True
                 else:
                     eng["handed_over"] = False
-                if eng["set"] is not None and eng["set"] != s and holder.get(eng["set"]) == e:
-                    holder.pop(eng["set"])
                 eng["force"].nodes(lst)
                 eng["set"] = s
                 eng["sets_seen"].add(s)
-                holder[s] = e
+                eng["labels"] = list(objs[s])
                 outcome = mode_eff
         elif kind in ("compute", "abort_compute", "stack_compute"):
             e = op[1]
@@ -601,9 +624,13 @@ def _run(plan):
                 outcome = "skipped"
             else:
                 s = eng["set"]
-                labels = objs[s]
+                labels = eng["labels"]
                 f = eng["force"]
                 history = _stale_flags(labels, stats)
+                if eng.get("foreign_compute"):
+                    history.append("other_engine_computed_same_objects")
+                    bump("probe:recompute_after_other_engine_used_same_objects")
+                    eng["foreign_compute"] = False
                 for h in history:
                     bump("probe:stale_%s_at_compute" % h)
                 if eng.get("pending_stale"):
@@ -641,15 +668,19 @@ def _run(plan):
                         scope = "any"
                         total = _count_lines(f, scope)
                     k = 1 + (total * op[2]) // 1000000
-                    tr = seams.AbortTracer(k, scope)
+                    exc_name = op[4] if len(op) > 4 else "SimAbort"
+                    exc = {"SimAbort": seams.SimAbort, "MemoryError": MemoryError,
+                           "KeyboardInterrupt": KeyboardInterrupt}[exc_name]
+                    tr = seams.AbortTracer(k, scope, exc)
                     try:
                         with tr:
                             f.compute()
-                    except seams.SimAbort:
-                        outcome = "aborted"
+                    except exc:
+                        outcome = "aborted" if tr.fired else "raise:" + exc_name
                     except Exception as ex:
                         outcome = "raise:" + type(ex).__name__
                     if tr.fired:
+                        bump("probe:abort_as_" + exc_name)
                         bump("fault:abort:fired")
                         fn, func = tr.where
                         key = {"createStub": "abort_in_createStub", "removeStub": "abort_in_removeStub"}.get(func)
@@ -683,7 +714,11 @@ def _run(plan):
                         eng["after_fault"] = True
                     except Exception as ex:
                         outcome = "raise:" + type(ex).__name__
-                laid_by[s] = e
+                if labels and objs.get(s) and labels[0] is objs[s][0]:
+                    laid_by[s] = e
+                for e2, other in engines.items():
+                    if e2 != e and other.get("labels") and other["labels"][0] is labels[0]:
+                        other["foreign_compute"] = True
                 if outcome == "ok":
                     if eng.get("after_abort") and kind == "compute":
                         bump("probe:recompute_after_abort")
@@ -721,8 +756,10 @@ def _run(plan):
                             st.currentPos = r.randrange(-50, 500)
                             st.layerIndex = r.randrange(0, 4)
                         changed = True
-                if changed and holder.get(s) is not None:
-                    engines[holder[s]]["pending_stale"] = True
+                if changed:
+                    for other in engines.values():
+                        if other.get("labels") and other["labels"][0] is objs[s][0]:
+                            other["pending_stale"] = True
                 outcome = "planted" if changed else "noop"
         elif kind == "distribute":
             s, dopts, mode = op[1], op[2], op[3]
@@ -735,9 +772,10 @@ def _run(plan):
                 except Exception as ex:
                     outcome = "raise:" + type(ex).__name__
                 bump("probe:distribute_on_engine_labels")
-                if holder.get(s) is not None:
-                    engines[holder[s]]["pending_stale"] = True
-                    bump("fault:stale:configured")
+                for other in engines.values():
+                    if other.get("labels") and other["labels"][0] is objs[s][0]:
+                        other["pending_stale"] = True
+                        bump("fault:stale:configured")
             else:
                 nodes = fresh_nodes(s)
                 try:
